@@ -8,14 +8,17 @@ import runner
 from props import c18w
 from runner import Broken, Finding, run_lines, split_tag, corpus_lines, load_known, GOENV, VH, DRIVER, NCPU
 
-TIE = "corr:redblack + corr:comdoc-writer-tables + validator:Spec.Cfb.validate + corr:msi-digest"
+TIE = "corr:redblack + corr:comdoc-writer-tables + corr:comdoc-writer-bytes + validator:Spec.Cfb.validate + corr:msi-digest"
 TIE_THEOREM = ("Relic.Props.C18.rb_insert_valid / rb_unfixed_plain (model Relic.Model.RedBlack vs lib/redblack: same tree "
                "for the same insertion sequence); Relic.Spec.Cfb.validate evaluated on the bytes lib/comdoc wrote; "
                "Relic.Props.C18.alloc_fresh / chain_of_addStream / addStream_frame / addStream_short_fat / free_then_alloc / "
                "history_preserves_disjoint (model Relic.Model.CfbWriter vs lib/comdoc makeFreeSectors, freeSectors, addStream, "
                "writeShortSector, AddFile, DeleteFile, Close: same tables entry for entry on the same operations); "
                "Relic.Props.C18.tar_equals_direct / msi_digest_ignores_signature / sort_is_permutation / sort_total_no_panic_partial / sort_unique "
-               "(model Relic.Model.MsiDigest vs lib/authenticode msiverify.go, msitar.go on the same directory trees)")
+               "(model Relic.Model.MsiDigest vs lib/authenticode msiverify.go, msitar.go on the same directory trees); "
+               "Relic.Props.C18.streams_preserved / session_streams_preserved / added_stream_reads_back / tables_roundtrip / fat_parses_back / "
+               "chain_walks_back / bytes_refine_tables / inv_checkable (model Relic.Model.CfbBytes vs lib/comdoc openFile, AddFile, DeleteFile, "
+               "Close: the same FILE BYTES after every session, byte for byte; the invariant the theorems assume is evaluated on every opened input)")
 RULE = ("(a) red-black: every insertion order of 0..n-1 (n<=5 quick, <=7 thorough), ascending/descending runs of 8..64, seeded random "
         "sequences with duplicates (<=60 keys) inserted into the real redblack.Tree and into the Lean model (both colour policies); "
         "validity (black root, no red-red, equal black height, search order) evaluated on the implementation's dumped tree. "
@@ -43,11 +46,24 @@ TRUSTED = ["Relic.Spec.Cfb.validate is my reading of [MS-CFB] (strict: exact cha
            "model Relic.Model.RedBlack is hand-written; tied to lib/redblack by differential execution on every run",
            "model Relic.Model.CfbWriter (tables only: sector contents, directory links and names are not modelled; names enter as "
            "EqualFold classes assigned by the harness) is hand-written; tied to lib/comdoc by differential execution on every run, "
-           "unexported functions reached through lib/comdoc/hooks_verif.go (build tag verif)"] + list(_msi.TRUSTED)
-UNPROVED = ["add_preserves_valid_full (validator on real output only; the writer's allocation layer is modelled and proved "
-            "(alloc_fresh, addStream_frame, ...), Close is modelled and tied but has no theorem, sector contents are not modelled)",
-            "close_counts_full (that the bytes Close writes parse back to the tables of the model state: sector contents are not "
-            "modelled; the table-level count theorem allocTables_counts is proved and the read-back is compared on every wr op)",
+           "unexported functions reached through lib/comdoc/hooks_verif.go (build tag verif)",
+           "model Relic.Model.CfbBytes (file = header + sectors; openFile, data placement, writeShortSector, rebuildTree, writeDirStream, "
+           "writeSAT, writeMSAT, header, Truncate) is hand-written; its table component is PROVED equal to Relic.Model.CfbWriter "
+           "(bytes_refine_tables) and its bytes are tied to lib/comdoc by differential execution (wb ops); os.File.WriteAt / Truncate "
+           "semantics (zero fill of gaps) are assumed; strings.EqualFold and unicode.ToUpper are modelled by RedBlack.upperUnit"] + list(_msi.TRUSTED)
+UNPROVED = ["add_preserves_valid_full (bytes level; now narrowed: proved over the byte-level model Relic.Model.CfbBytes under the invariant Inv: "
+            "streams_preserved / session_streams_preserved (every stream a history of AddFile/DeleteFile + Close does not name keeps slot, name, "
+            "class id, state bits, time stamps and reads back the same bytes), added_stream_reads_back, tables_roundtrip (the sectors Close wrote "
+            "hold the serialised FAT, DIFAT, mini-FAT, directory, header of the final state; marks, counts, live chains disjoint, file ends "
+            "after the last used sector), fat_parses_back / chain_walks_back (the SPEC's u32s? / walk / sectorBytes on the output bytes give the "
+            "model's tables, chains and data), close_directory_tree; open: inv_of_valid_full and valid_of_closed_full below)",
+            "inv_of_valid_full (Spec.Cfb.validate b = ok -> invB (openFile b) = true: the validator's traversal is not inverted; evaluated on "
+            "every wb input and every model-predicted output: tag br)",
+            "valid_of_closed_full (the facts of tables_roundtrip + streams_preserved imply Spec.Cfb.validate (output) = ok: the validator's claims / "
+            "counts / red-black traversal over the re-parsed bytes, directory entries and header through Cfb.readDirEntry / Cfb.readHeader, "
+            "is not replayed in Lean; evaluated on every wb and hist output)",
+            "close_counts_full (stated over the table model; superseded at byte level by tables_roundtrip, whose header half is at the level "
+            "of the 512 bytes written, not of Cfb.readHeader)",
             "add_preserves_disjoint_full (state level: that AddFile/DeleteFile keep the heads of St a list to which the proved "
             "table-level history_preserves_disjoint applies; evaluated on every dumped state instead)",
             "order_is_mscfb_full (refuted for the original lessDirEnt: order_differs_mixed_case; repaired as F4-order)",
